@@ -14,6 +14,13 @@ Proof. vm_compute. reflexivity. Qed.
 Lemma ob_listener_accept_calls_nothing : listener_accept_calls = [].
 Proof. vm_compute. reflexivity. Qed.
 
+(* a rate-limited listener charges the shared bucket AFTER the I/O and for the bytes moved: a stalled
+   connection parked in Read holds no tokens, so stalled peers cannot starve a well-behaved client *)
+Lemma ob_rate_limit_charged_after_io :
+  ratelimit_read_prog = [b "c.Conn.Read(b)"; b "c.rxLimiter.WaitN(waitContext, n)"] /\
+  ratelimit_write_prog = [b "c.Conn.Write(b)"; b "c.txLimiter.WaitN(waitContext, n)"].
+Proof. vm_compute. split; reflexivity. Qed.
+
 (* the first header-reading call on a PROXY-protocol connection is not made in the accept loop *)
 Lemma ob_pp_first_touch_not_in_accept_loop : pp_touch_accept = false.
 Proof. vm_compute. reflexivity. Qed.
